@@ -15,6 +15,7 @@ code): no clock, no OS scheduling choice, no hash-order dependence.
 import hashlib
 import os
 import pickle
+import signal
 import sys
 import threading
 
@@ -37,6 +38,16 @@ class SimAbort(BaseException):
 
 class SimKill(BaseException):
     """Unwinds parked caller threads when the harness itself has failed."""
+
+
+class OpTimeout(BaseException):
+    """An operation exceeded its step budget (pre-emptive mode, deterministic)
+    or OP_WALL_LIMIT seconds of wall time (operation-boundary mode, where no
+    tracer counts steps).  Reported as the violation
+    `operation_did_not_terminate`, never as a harness error."""
+
+
+OP_WALL_LIMIT = 15.0  # seconds; ordinary operations take milliseconds
 
 
 # --------------------------------------------------------------------------
@@ -494,11 +505,27 @@ class Engine:
         self.log("invoke", self.seq, c, k, op)
         self.in_op[c] = True
         self.op_local_steps[c] = 0
+        watchdog = self.mode == "op" and threading.current_thread() is threading.main_thread()
+        if watchdog:
+            old = signal.signal(signal.SIGALRM, _on_alarm)
+            signal.setitimer(signal.ITIMER_REAL, OP_WALL_LIMIT)
         try:
             out = self.exec_op(self.world, op)
         except SimAbort:
             out = ("aborted",)
+        except OpTimeout:
+            out = ("timeout",)
+            self.add_violation(
+                "operation_did_not_terminate",
+                str(op[0]),
+                {"op": op, "limit": f"{OP_WALL_LIMIT}s wall" if self.mode == "op" else f"{self.max_steps} steps"},
+            )
+            if self.mode != "op":
+                raise
         finally:
+            if watchdog:
+                signal.setitimer(signal.ITIMER_REAL, 0)
+                signal.signal(signal.SIGALRM, old)
             self.in_op[c] = False
         self.seq += 1
         self.outcomes[(c, k)] = out
@@ -521,6 +548,8 @@ class Engine:
         while cur is not None:
             self.current = cur
             k, op, out = self._do_op(cur)
+            if out == ("timeout",):
+                break
             self._after_op(cur, k, op, out)
             cur = self._decide(cur, not self.finished[cur], False)
 
@@ -595,12 +624,17 @@ class Engine:
                     self._handoff(c, t, f"boundary:{c}.{k}", wait=not self.finished[c])
         except SimKill:
             return
+        except OpTimeout:
+            # recorded as a violation by _do_op; stop the whole run
+            self.killed = True
+            for cc in range(self.n):
+                self.finished[cc] = True
         except BaseException as e:  # noqa: harness failure inside a caller thread
             self.harness_error = e
             self.finished[c] = True
         finally:
             sys.settrace(None)
-            if self.harness_error is not None or not self._runnable():
+            if self.harness_error is not None or self.killed or not self._runnable():
                 self.main_sem.release()
 
     def _handoff(self, c, t, site, wait=True):
@@ -634,7 +668,7 @@ class Engine:
         step = self.step
         self.op_local_steps[c] += 1
         if step > self.max_steps:
-            raise HarnessError(f"step cap {self.max_steps} exceeded")
+            raise OpTimeout()
         if self.write_since_last_point or step - self.last_check_step >= self.digest_every:
             self.check_digests(f"step {step}")
         if step in self.abort_at:
@@ -669,6 +703,10 @@ class Engine:
                     self.probes[key] = self.probes.get(key, 0) + 1
             f = f.f_back
             depth += 1
+
+
+def _on_alarm(signum, frame):
+    raise OpTimeout()
 
 
 def _site(frame):
@@ -706,9 +744,9 @@ class _Instr:
         m.register_callback(cls.TOOL, m.events.INSTRUCTION, None)
 
 
-def count_steps(fn, granularity="line"):
+def count_steps(fn, granularity="line", cap=2_000_000):
     """Run fn() under a counting tracer; returns (result, number of valida
-    line/opcode events)."""
+    line/opcode events).  Raises OpTimeout beyond `cap` events."""
     n = [0]
     if granularity == "opcode":
 
@@ -716,6 +754,8 @@ def count_steps(fn, granularity="line"):
             if not code.co_filename.startswith(VALIDA_DIR):
                 return sys.monitoring.DISABLE
             n[0] += 1
+            if n[0] > cap:
+                raise OpTimeout()
 
         _Instr.install(cb)
         try:
@@ -727,6 +767,8 @@ def count_steps(fn, granularity="line"):
     def ltrace(frame, event, arg):
         if event == "line":
             n[0] += 1
+            if n[0] > cap:
+                raise OpTimeout()
         return ltrace
 
     def gtrace(frame, event, arg):
